@@ -454,10 +454,13 @@ class SqlalchemyRender:
                         join_type = item['join_type']
                         method = 'join'
                         is_full = False
-                        if join_type == 'LEFT JOIN':
+                        if join_type in ('LEFT JOIN', 'LEFT OUTER JOIN'):
                             method = 'outerjoin'
-                        if join_type == 'FULL JOIN':
+                        elif join_type in ('FULL JOIN', 'FULL OUTER JOIN'):
                             is_full = True
+                        elif join_type not in ('JOIN', 'INNER JOIN', 'CROSS JOIN'):
+                            # sqlalchemy has no right join; an inner join would silently drop rows
+                            raise NotImplementedError(f'Join type: {join_type}')
 
                         # perform join
                         query = getattr(query, method)(
